@@ -250,6 +250,8 @@ def translate_function(reg, fn, node, cls=None, declared_ret=None):
     except Unsupported as u:
         fn.unsupported = str(u)
         fn.code = None
+        if is_init:
+            fn.ret = TObj(cls.name)
         if fn.ret is None:
             fn.ret = declared_ret
     except Impure:
